@@ -23,6 +23,9 @@ func mustWKT(s string) geom.Geometry {
 // pairCase builds a two-operand lattice case with an optional exact similarity or general-position map.
 func pairCase(l *lgen, a, b geom.Geometry, mapKind int) Case {
 	c := Case{"wa": a.AsText(), "wb": b.AsText(), "N": l.N}
+	if l.r.Intn(3) == 0 {
+		c["hist"] = 1 + l.r.Intn(7) // the operands reach the operation through another library operation first
+	}
 	switch mapKind {
 	case 1:
 		c["t"] = l.randSimil().toCase()
@@ -71,10 +74,113 @@ func mapOf(c Case) (func(geom.XY) geom.XY, bool) {
 }
 
 func imageOf(g geom.Geometry, f func(geom.XY) geom.XY) geom.Geometry {
-	if f == nil {
-		return g
+	if f != nil {
+		g = g.TransformXY(f)
 	}
-	return g.TransformXY(f)
+	return withHistory(g, curHist)
+}
+
+// curHist is the "hist" field of the case being executed (set by the driver before Exec; cases run one at a time).
+var curHist int
+
+// withHistory returns the same value - same type, structure, coordinate type and ordinates - after it has been through
+// other library operations, so that it carries whatever internal representation those leave behind (spare capacity,
+// shared backing arrays, a decoder's allocation pattern, a collection's member storage). The operation under test must
+// not be able to tell.
+func withHistory(g geom.Geometry, k int) geom.Geometry {
+	switch k {
+	case 1:
+		if r, err := geom.UnmarshalWKB(g.AsBinary(), geom.NoValidate{}); err == nil {
+			return r
+		}
+	case 2:
+		return g.Reverse().Reverse()
+	case 3:
+		if g.CoordinatesType() == geom.DimXY {
+			return g.ForceCoordinatesType(geom.DimXYZM).Force2D()
+		}
+	case 4:
+		return g.TransformXY(func(p geom.XY) geom.XY { return p })
+	case 5:
+		return geom.NewGeometryCollection([]geom.Geometry{g, geom.Point{}.AsGeometry()}).GeometryN(0)
+	case 6:
+		return respare(g)
+	case 7:
+		if r, err := geom.UnmarshalWKT(g.AsText(), geom.NoValidate{}); err == nil {
+			return r
+		}
+	}
+	return g
+}
+
+// respare rebuilds every LineString and ring of g as a window (Sequence.Slice) of one shared backing array with spare
+// capacity behind each window.
+func respare(g geom.Geometry) geom.Geometry {
+	ct := g.CoordinatesType()
+	window := func(s geom.Sequence) geom.Sequence {
+		n := s.Length()
+		fs := make([]float64, 0, 4*(n+2)*ct.Dimension())
+		pad := geom.Coordinates{XY: geom.XY{X: 12345, Y: -12345}, Type: ct}
+		add := func(c geom.Coordinates) {
+			fs = append(fs, c.X, c.Y)
+			if ct.Is3D() {
+				fs = append(fs, c.Z)
+			}
+			if ct.IsMeasured() {
+				fs = append(fs, c.M)
+			}
+		}
+		add(pad)
+		for i := 0; i < n; i++ {
+			add(s.Get(i))
+		}
+		add(pad)
+		return geom.NewSequence(fs, ct).Slice(1, n+1)
+	}
+	line := func(l geom.LineString) geom.LineString {
+		if l.IsEmpty() {
+			return l
+		}
+		return geom.NewLineString(window(l.Coordinates()))
+	}
+	poly := func(p geom.Polygon) geom.Polygon {
+		if p.IsEmpty() {
+			return p
+		}
+		var rs []geom.LineString
+		for _, r := range p.DumpRings() {
+			rs = append(rs, line(r))
+		}
+		return geom.NewPolygon(rs)
+	}
+	switch g.Type() {
+	case geom.TypeLineString:
+		return line(g.MustAsLineString()).AsGeometry()
+	case geom.TypePolygon:
+		return poly(g.MustAsPolygon()).AsGeometry()
+	case geom.TypeMultiLineString:
+		m := g.MustAsMultiLineString()
+		var ls []geom.LineString
+		for i := 0; i < m.NumLineStrings(); i++ {
+			ls = append(ls, line(m.LineStringN(i)))
+		}
+		return geom.NewMultiLineString(ls).ForceCoordinatesType(ct).AsGeometry()
+	case geom.TypeMultiPolygon:
+		m := g.MustAsMultiPolygon()
+		var ps []geom.Polygon
+		for i := 0; i < m.NumPolygons(); i++ {
+			ps = append(ps, poly(m.PolygonN(i)))
+		}
+		return geom.NewMultiPolygon(ps).ForceCoordinatesType(ct).AsGeometry()
+	case geom.TypeGeometryCollection:
+		gc := g.MustAsGeometryCollection()
+		var ms []geom.Geometry
+		for i := 0; i < gc.NumGeometries(); i++ {
+			ms = append(ms, respare(gc.GeometryN(i)))
+		}
+		return geom.NewGeometryCollection(ms).ForceCoordinatesType(ct).AsGeometry()
+	}
+	return g
 }
 
 func errStr(err error) string {
